@@ -107,7 +107,8 @@ Proof.
   assert (Hgen : (if status_eqb s0 SPending
                   then check negb (opt_eqb N.eqb (get th (thinst s)) (Some i)) && negb (has i (map (fun p => (snd p, tt)) (thinst s)))
                              && (match pc x with IDeps _ => true | _ => false end);
-                       Some (write_status (nm x) SPending s)
+                       check at_stage s th i 0;
+                       Some (set_stage th i 1 (write_status (nm x) SPending s))
                   else check opt_eqb N.eqb (get th (thinst s)) (Some i);
                        match pc x with
                        | IPreLaunch => check status_eqb s0 SRunning; Some (set_pc i IStateSet (write_status (nm x) SRunning s))
@@ -118,14 +119,14 @@ Proof.
                        end) = Some s' -> P2all s' o').
   { clear H. intros H. break_step H; subst s'; split_andb.
     - (* spawn: Pending *)
-      intros j y' yo' Hy' Hyo'. rewrite write_status_insts in Hy'. destruct (N.eqb_spec j i) as [->|Hji].
+      intros j y' yo' Hy' Hyo'. unfold set_stage in Hy'. rewrite insts_set_stage, write_status_insts in Hy'. destruct (N.eqb_spec j i) as [->|Hji].
       + assert (y' = x) by congruence. subst y'. destruct (Hk i yo' Hyo') as (xo & Exo & Ok).
-        eapply P2_frame2; [apply (HP _ _ _ Ex Exo)|apply ikeep_refl|exact Ok|rewrite restarts_write_status; lia|exact Hwk|].
+        eapply P2_frame2; [apply (HP _ _ _ Ex Exo)|apply ikeep_refl|exact Ok|unfold set_stage; rewrite vis_of_set_stage, restarts_write_status; lia|exact Hwk|].
         intros _ Hl. destruct (pc x); discriminate.
       + eapply (P2all_status_others s o _ o' i x (nm x) SPending); eauto using ikeep_refl.
         * left. destruct (pc x); try discriminate; reflexivity.
-        * intros m. apply st_write_status.
-        * intros m. apply restarts_write_status.
+        * intros m. unfold set_stage. rewrite vis_of_set_stage. apply st_write_status.
+        * intros m. unfold set_stage. rewrite vis_of_set_stage. apply restarts_write_status.
     - (* Running *)
       intros j y' yo' Hy' Hyo'. unfold set_pc in Hy'. autorewrite with sup in Hy'. destruct (N.eqb_spec i j) as [<-|Hji].
       + rewrite Ex in Hy'. cbn in Hy'. injection Hy' as <-. inst_i_tac HP Ex Hk i. all: state_fin Hwk Ev.
